@@ -93,3 +93,22 @@ package mocker
 //@   pure
 //@ trusted func (m *unExportedVarMocker) String
 //@   pure
+
+// ---- C04: condition matching -------------------------------------------------------------------------------------------
+// Arguments arrive as reflect.MakeFunc delivers them: one valid Value per declared parameter, the
+// variadic tail (if any) as one slice Value in the last position; for methods the receiver first.
+
+//@ pure func call_args_ok(args []reflect.Value, isMethod bool, isVariadic bool) bool = arr(args) != textref && len(args) < 0x10000
+//@   | && (forall i int :: 0 <= i && i < len(args) ==> rv_valid(args[i]) && !rv_addressable(args[i]))
+//@   | && (isMethod ==> len(args) >= 1) && (isVariadic ==> len(args) >= ite(isMethod, int(2), int(1)) && rv_kind(args[len(args) - 1]) == reflect.Slice)
+
+//@ func (c *DefaultMatcher) Match
+//@   props C04
+//@   requires receiver: c != nil && arr(c.exprs) != textref && forall i int :: 0 <= i && i < len(c.exprs) ==> c.exprs[i] != nil
+//@   requires args_as_delivered: call_args_ok(args, c.isMethod, c.isVariadic)
+//@   requires values_are_plain: forall v reflect.Value :: rv_valid(v) && rv_kind(v) == reflect.Slice ==> rv_kind(value_of(rv_iface(v))) == reflect.Slice && rv_len(value_of(rv_iface(v))) == rv_len(v) && rv_len(v) < 0x10000
+//@   assigns nothing
+//@   invariant loop 1 expanding: true
+//@   invariant loop 2 elements: true
+//@   invariant loop 3 evaluating: true
+//@   ensures decided: true
